@@ -13,45 +13,55 @@ Proof. induction a as [|x a IH]; cbn [append]; [reflexivity|now rewrite IH]. Qed
 Lemma length_app_s (a b : string) : String.length (a ++ b)%string = (String.length a + String.length b)%nat.
 Proof. induction a as [|x a IH]; cbn [append String.length]; [reflexivity|now rewrite IH]. Qed.
 
-Lemma digit_val_char d : d < 16 -> digit_val (digit_char d) = d.
+Lemma digit_val_char d : d < 16 -> digit_val (digit_char d) = d /\ digit_val (digit_char_l d) = d.
 Proof.
   intros H. assert (E : existsb (N.eqb d) [0;1;2;3;4;5;6;7;8;9;10;11;12;13;14;15] = true).
   { cbn [existsb]. lia. }
   apply existsb_exists in E. destruct E as [x [Hin Hx]]. apply N.eqb_eq in Hx. subst x.
-  cbn [In] in Hin. repeat (destruct Hin as [<-|Hin]; [vm_compute; reflexivity|]). contradiction.
+  cbn [In] in Hin. repeat (destruct Hin as [<-|Hin]; [vm_compute; split; reflexivity|]). contradiction.
 Qed.
 
 (* digits prepends the digit string of n to acc; read back, it is n *)
-Lemma digits_spec base : 2 <= base <= 16 -> forall (fuel : nat) n acc, n < base ^ N.of_nat fuel ->
-  exists ds, digits base fuel n acc = (ds ++ acc)%string /\ forall a, value_of base ds a = a * base ^ N.of_nat (String.length ds) + n.
+Lemma digits_spec dc base : (forall d, d < 16 -> digit_val (dc d) = d) -> 2 <= base <= 16 ->
+  forall (fuel : nat) n acc, n < base ^ N.of_nat fuel ->
+  exists ds, digits dc base fuel n acc = (ds ++ acc)%string /\ forall a, value_of base ds a = a * base ^ N.of_nat (String.length ds) + n.
 Proof.
-  intros Hb. induction fuel as [|f IH]; intros n acc Hn.
+  intros Hdc Hb. induction fuel as [|f IH]; intros n acc Hn.
   - exists EmptyString. cbn [digits append]. split; [reflexivity|]. intros a. cbn. cbn in Hn. lia.
   - cbn [digits]. destruct (N.eqb_spec (n / base) 0) as [E|E].
-    + exists (String (digit_char (n mod base)) EmptyString). split; [reflexivity|]. intros a. cbn [value_of String.length].
-      rewrite digit_val_char by lia. assert (n < base) by (apply N.div_small_iff in E; lia).
+    + exists (String (dc (n mod base)) EmptyString). split; [reflexivity|]. intros a. cbn [value_of String.length].
+      rewrite Hdc by lia. assert (n < base) by (apply N.div_small_iff in E; lia).
       rewrite N.mod_small by lia. change (N.of_nat 1) with 1. rewrite N.pow_1_r. reflexivity.
     + assert (Hq : n / base < base ^ N.of_nat f).
       { apply N.div_lt_upper_bound; [lia|]. rewrite Nnat.Nat2N.inj_succ, N.pow_succ_r' in Hn. exact Hn. }
-      destruct (IH (n / base) (String (digit_char (n mod base)) acc) Hq) as [ds [Ed Hv]].
-      exists (ds ++ String (digit_char (n mod base)) EmptyString)%string. split.
+      destruct (IH (n / base) (String (dc (n mod base)) acc) Hq) as [ds [Ed Hv]].
+      exists (ds ++ String (dc (n mod base)) EmptyString)%string. split.
       * rewrite Ed. rewrite app_assoc_s. reflexivity.
-      * intros a. rewrite value_of_app, Hv. cbn [value_of]. rewrite digit_val_char by lia.
+      * intros a. rewrite value_of_app, Hv. cbn [value_of]. rewrite Hdc by lia.
         rewrite length_app_s. cbn [String.length]. rewrite Nnat.Nat2N.inj_add. change (N.of_nat 1) with 1.
         rewrite N.pow_add_r, N.pow_1_r. pose proof (N.div_mod n base ltac:(lia)). nia.
 Qed.
+Lemma dc_u d : d < 16 -> digit_val (digit_char d) = d.  Proof. intros H. apply digit_val_char, H. Qed.
+Lemma dc_l d : d < 16 -> digit_val (digit_char_l d) = d.  Proof. intros H. apply digit_val_char, H. Qed.
 
 Theorem dec_roundtrip n : n < 2 ^ 64 -> value_of 10 (dec n) 0 = n.
 Proof.
-  intros H. destruct (digits_spec 10 ltac:(lia) 20 n EmptyString) as [ds [E Hv]].
+  intros H. destruct (digits_spec digit_char 10 dc_u ltac:(lia) 20 n EmptyString) as [ds [E Hv]].
   { change (N.of_nat 20) with 20. assert (2 ^ 64 < 10 ^ 20) by (vm_compute; reflexivity). lia. }
   unfold dec. rewrite E. rewrite value_of_app. cbn [value_of]. rewrite Hv. lia.
 Qed.
 Theorem hex_roundtrip n : n < 2 ^ 64 -> value_of 16 (hexu n) 0 = n.
 Proof.
-  intros H. destruct (digits_spec 16 ltac:(lia) 16 n EmptyString) as [ds [E Hv]].
+  intros H. destruct (digits_spec digit_char 16 dc_u ltac:(lia) 16 n EmptyString) as [ds [E Hv]].
   { change (N.of_nat 16) with 16. assert (2 ^ 64 = 16 ^ 16) by (vm_compute; reflexivity). lia. }
   unfold hexu. rewrite E. rewrite value_of_app. cbn [value_of]. rewrite Hv. lia.
+Qed.
+
+Theorem hexl_roundtrip n : n < 2 ^ 64 -> value_of 16 (hexl n) 0 = n.
+Proof.
+  intros H. destruct (digits_spec digit_char_l 16 dc_l ltac:(lia) 16 n EmptyString) as [ds [E Hv]].
+  { change (N.of_nat 16) with 16. assert (2 ^ 64 = 16 ^ 16) by (vm_compute; reflexivity). lia. }
+  unfold hexl. rewrite E. rewrite value_of_app. cbn [value_of]. rewrite Hv. lia.
 Qed.
 
 (* every variant that does not wrap a standard-library error has a message of its own and no source *)
